@@ -102,7 +102,10 @@ def AU(scope: str, *filt: list, via: str = "class", cache: bool = True) -> dict:
     return {"t": "auth", "scope": scope, "filter": list(filt), "via": via, "cache": cache}
 
 
-UNREG = [{"t": "unreg", "i": 0}, {"t": "unreg", "i": 1}, {"t": "unreg_all", "scope": "G"}, {"t": "unreg_all", "scope": "S"}]
+# "rehook": the same function object of hook #0 is registered once more under the same hook name on its dispatcher
+# (e.g. an `install()` helper called twice); `unregister(fn)` must then remove every registration of that function
+UNREG = [{"t": "unreg", "i": 0}, {"t": "unreg", "i": 1}, {"t": "unreg_all", "scope": "G"}, {"t": "unreg_all", "scope": "S"},
+         {"t": "rehook", "i": 0}]
 
 # forms:  fn          @d.hook / @d.hook.apply_to(..)            (name taken from the function name)
 #         str         @d.hook("name") / @d.hook.apply_to(..)("name")   (filters first, then the name)
@@ -522,6 +525,12 @@ def apply_action(env: Env, action: dict) -> None:
             return
         env.hook_regs.append({"tag": tag, "scope": "S" if scope == "S2" else scope, "entry": scope, "form": form, "kind": kind,
                               "own": spec, "fn": fn, "live": True, "removed_by": None})
+    elif t == "rehook":
+        if action["i"] >= len(env.hook_regs) or not env.hook_regs[action["i"]]["live"] or env.hook_regs[action["i"]]["scope"] == "T":
+            env.rejected.append("rehook_target_missing")
+            return
+        reg = env.hook_regs[action["i"]]
+        _dispatcher(env, reg["scope"]).register_hook_with_name(reg["fn"], reg["kind"])
     elif t == "unreg":
         if action["i"] >= len(env.hook_regs):
             env.rejected.append("unregister_target_missing")
@@ -861,6 +870,8 @@ def describe(a: dict) -> str:
         if a["form"] == "apply":
             return f"@{ep}({a['kind']}) on test"
         return f"@{ep}(custom, name={a['kind']!r}) on test"
+    if a["t"] == "rehook":
+        return f"register hook #{a['i']} (same function, same name) again"
     if a["t"] == "unreg":
         return f"unregister(hook #{a['i']})"
     if a["t"] == "unreg_all":
